@@ -242,3 +242,35 @@ def param_mutations(ctx: Ctx, fi: FuncInfo, pname: str, depth: int = 2, seen=Non
     if rebinds:
         return []
     return out
+
+
+def borrow(ctx: Ctx, res: Result, tier: str, module_name: str, rules, as_rule: str, text: str):
+    """Run the check of another property and take over the obligations / findings of some of its rules under `as_rule`
+    (a clause of this property that rests on the same mechanism). Findings the other check established before an
+    anchor vanished are kept; a plain analysis error propagates."""
+    import importlib
+    from .. import report as _report
+    res.rule(as_rule, text)
+    mod = importlib.import_module("sa.props." + module_name)
+    pid = module_name.upper()
+    memo = ctx._extra.setdefault("borrowed", {})
+    sub = memo.get(pid)
+    if sub is None:
+        try:
+            sub = mod.run(ctx, tier)
+        except AnalysisError:
+            sub = _report.CURRENT
+            if sub is None or sub.pid != pid or not [f for f in sub.findings if f.rule in rules]:
+                _report.CURRENT = res
+                raise
+        finally:
+            pass
+        memo[pid] = sub
+    _report.CURRENT = res
+    for rid in rules:
+        r_ = sub.rules.get(rid, {"obligations": 0, "discharged": 0})
+        for _ in range(r_["discharged"]):
+            res.ok(as_rule)
+    for f_ in sub.findings:
+        if f_.rule in rules:
+            res.fail(Finding(as_rule, f_.func, f_.construct, f_.loc, "[%s] %s" % (f_.rule, f_.msg), f_.path))
